@@ -136,6 +136,28 @@ def run(ctx: Ctx):
         ok = rc_node is not None and nd is not None and rc_node.id in dom[nd.id]
         ctx.ob("R4.2", f, n, ok, "direct read of the frame table happens after the recomputation", node=n)
         n_sites += 1
+    # R4.2b: the keys read during restoration (anchors fixed at construction) are all rewritten by this call's
+    # recomputation (anchors of the ARGUMENT) only if the argument has the construction reference's bond structure.
+    # Either the species guard compares bonds, or the table is emptied before it is refilled (a missing key then
+    # fails loudly instead of silently using the frame of an earlier argument).
+    eq_m = ctx.repo.func("Molecule.__eq__", required=False)
+    eq_a = ctx.repo.func("Atom.__eq__", required=False)
+    compares_bonds = any(g_ is not None and any(isinstance(n_, ast.Attribute) and n_.attr == "bonds" for n_ in ast.walk(g_.node))
+                         for g_ in (eq_m, eq_a))
+    clears = False
+    for g_ in (em.call, em.recompute):
+        for st in walk_no_nested(g_.node):
+            if isinstance(st, ast.Expr) and isinstance(st.value, ast.Call) and call_name(st.value) == "clear" \
+                    and attr_chain(st.value.func.value) == frames_key:
+                clears = True
+            if isinstance(st, ast.Assign) and attr_chain(st.targets[0]) == frames_key and g_ is not em.init:
+                clears = True
+    ctx.ob("R4.2", em.recompute, "frame keys read = construction anchors; keys rewritten = anchors of the argument", compares_bonds or clears,
+           "every frame read during a call was rewritten during that call: the species check must guarantee the argument "
+           "has the same bonded structure (so the same anchors), or the table must be emptied before it is refilled"
+           + ("" if compares_bonds or clears else " -- neither: a molecule with the same names but fewer bonds passes the check, "
+              "some anchors are not recomputed and the frames of the PREVIOUS argument are used for them"),
+           node=em.recompute.node, species_check_compares_bonds=compares_bonds, table_cleared_per_call=clears)
     # the recomputation itself does not read the table
     rr = [g.name for g in (em.recompute, em.recompute_general) if g.name in readers]
     ctx.ob("R4.2", em.recompute, "frame-table readers on the call path: %s" % sorted(readers), not rr,
@@ -183,6 +205,33 @@ def run(ctx: Ctx):
         es = [e for e in E.summary(eq) if e.root[0] in ("self", "param", "global")]
         ctx.ob("R4.3", eq, "effects of Molecule.__eq__: %d" % len(es), not es,
                "the species comparison does not modify either molecule", node=eq.node)
+
+    # the species comparison itself: same class, same name, same number of atoms, atom-wise equal
+    if eq is not None:
+        other = [p_ for p_ in eq.params if p_ != "self"][0]
+        txt = ast.unparse(eq.node).replace(" ", "")
+        cmps = [norm(c_).replace(" ", "") for c_ in ast.walk(eq.node) if isinstance(c_, ast.Compare)]
+        has_inst = "isinstance(%s,Molecule)" % other in txt
+        has_name = any(c_ in ("%s.name==self.name" % other, "self.name==%s.name" % other, "%s.name!=self.name" % other,
+                              "self.name!=%s.name" % other) for c_ in cmps)
+        has_len = any(c_ in ("len(%s)==len(self)" % other, "len(self)==len(%s)" % other, "len(%s)!=len(self)" % other,
+                             "len(self)!=len(%s)" % other) for c_ in cmps) or "strict=True" in txt or "zip_longest" in txt
+        has_atoms = ("zip(self,%s)" % other in txt or "zip(%s,self)" % other in txt or "zip_longest(" in txt) and \
+            any(c_.startswith("at1") or "!=" in c_ or "==" in c_ for c_ in cmps)
+        missing = [n_ for n_, ok_ in (("instance test", has_inst), ("molecule name", has_name), ("number of atoms", has_len),
+                                      ("atom-by-atom comparison", has_atoms)) if not ok_]
+        ctx.ob("R4.3", eq, "Molecule.__eq__ compares: class, name, atom count, atoms pairwise", not missing,
+               "two molecules are the same species only if they have the same name, the same number of atoms and equal "
+               "atoms position by position" + ("" if not missing else " -- not compared: %s (zip() stops at the shorter "
+               "molecule, so a prefix or an extension would be accepted)" % missing), node=eq.node)
+        aeq = ctx.repo.func("Atom.__eq__", required=False)
+        if aeq is not None:
+            at = ast.unparse(aeq.node)
+            need = ["resname", "name", "index", "top_resid"]
+            miss2 = [a_ for a_ in need if "self.%s == " % a_ not in at and "== self.%s" % a_ not in at]
+            ctx.ob("R4.3", aeq, "Atom.__eq__ compares %s" % need, not miss2,
+                   "atoms are equal when residue name, atom name, index and topology residue number agree"
+                   + ("" if not miss2 else " -- not compared: %s" % miss2), node=aeq.node)
 
     # ------------------------------------------------------------------ R4.4
     arg_eff = [e for e in summ if e.root[0] == "param"]
